@@ -828,7 +828,7 @@ func multiPlans(g *gen, thorough bool) []Plan {
 	}
 	n, rounds := 70, 3
 	if thorough {
-		n, rounds = 900, 6
+		n, rounds = 400, 5
 	}
 	for i := 0; i < n; i++ {
 		g.nextID = 0
